@@ -46,6 +46,6 @@ def run(run):
     # queues that have been in service for a very long time (2^32 and more claims in thorough): an uninstrumented -O2 build of
     # the same driver, its trace validated against the same specification (Cycles(n) = n whole cycles on an idle queue)
     fast = build_driver(run, "mqseq_drv_fast", "mqseq_drv.c", ["librfn/messageq.c"], cc=["gcc", "-std=gnu11", "-O2", "-g", "-DLIBRFN_VERIF"])
-    sc = "Long 16\nLong 24\n" + ("Long 28\nLong1 32\n" if run.thorough() else "Long 27\n")
+    sc = "Straddle\nLong 16\nLong 24\n" + ("Long 28\nLong1 32\n" if run.thorough() else "Long 27\n")
     tr3 = exec_script(run, fast, [], sc, run.path("long-service.ndjson"), "long-service", timeout=3000)
     check_trace(run, "long-service", "TraceMessageQSeq", "TraceMessageQSeq.cfg", tr3)
